@@ -124,4 +124,31 @@ theorem full_rank_request (V : Matrix (Fin n) (Fin n) ℝ) (s : Fin n → ℝ) :
       = V * Matrix.diagonal s * Vᵀ := by
   simp
 
+/-- **The projection does not depend on the order of the inducing points.**  If `xu'` lists the rows of `xu` in another
+    order (`σ` a permutation), the inducing-point factors of the two runs have the same `L Lᵀ` — in particular
+    `gp_type='fixed'` with the cells themselves as landmarks, in any order, is one and the same model. -/
+theorem inducing_order_irrelevant {cov : Cov ℝ} {x : Mat ℝ n d} {xu xu' : Mat ℝ m d} {sigma jitter : ℝ}
+    {L L' : Mat ℝ n m} (σ : Equiv.Perm (Fin m)) (hrows : ∀ i : Fin m, xu'.row i = xu.row (σ i))
+    (h : standardLowRank cov x xu Option.none sigma jitter = some L)
+    (h' : standardLowRank cov x xu' Option.none sigma jitter = some L') :
+    toM L' * (toM L')ᵀ = toM L * (toM L)ᵀ := by
+  rw [C04.inducing_LLt h, C04.inducing_LLt h']
+  set s := max (sigma * sigma) jitter
+  have hxu : toM (gram cov x xu') = (toM (gram cov x xu)).submatrix id σ := by
+    ext i j
+    simp only [toM_apply, Matrix.submatrix_apply, id]
+    rw [gram_el cov x xu' i j i.isLt j.isLt, gram_el cov x xu i (σ j) i.isLt (σ j).isLt, hrows j]
+  have hux : toM (gram cov xu' x) = (toM (gram cov xu x)).submatrix σ id := by
+    ext i j
+    simp only [toM_apply, Matrix.submatrix_apply, id]
+    rw [gram_el cov xu' x i j i.isLt j.isLt, gram_el cov xu x (σ i) j (σ i).isLt j.isLt, hrows i]
+  have huu : toM (gram cov xu' xu') + s • (1 : Matrix (Fin m) (Fin m) ℝ)
+      = (toM (gram cov xu xu) + s • (1 : Matrix (Fin m) (Fin m) ℝ)).submatrix σ σ := by
+    ext i j
+    simp only [toM_apply, Matrix.submatrix_apply, Matrix.add_apply, Matrix.smul_apply, Matrix.one_apply,
+      EmbeddingLike.apply_eq_iff_eq]
+    rw [gram_el cov xu' xu' i j i.isLt j.isLt, gram_el cov xu xu (σ i) (σ j) (σ i).isLt (σ j).isLt, hrows i, hrows j]
+  rw [hxu, hux, huu, Matrix.inv_submatrix_equiv, Matrix.submatrix_mul_equiv, Matrix.submatrix_mul_equiv]
+  simp
+
 end Mellon.C09
